@@ -43,9 +43,13 @@ func main() {
 	}
 	storediff.Quiet()
 	if os.Args[1] == "conc-child" {
-		res := storediff.ConcurrentDiag(verdict.Seed())
-		bz, _ := json.Marshal(res)
-		fmt.Println("CONC-RESULT " + string(bz))
+		// phase 1: latest reads only; phase 2: with versioned reads (this
+		// one can die of a fatal "concurrent map read and map write")
+		for _, versioned := range []bool{false, true} {
+			res := storediff.ConcurrentDiag(verdict.Seed(), versioned)
+			bz, _ := json.Marshal(res)
+			fmt.Printf("CONC-RESULT versioned=%v %s\n", versioned, string(bz))
+		}
 		return
 	}
 	tier := os.Args[1]
@@ -178,7 +182,9 @@ func run(tier string) int {
 							}
 							r.Case(grp, isNT)
 						}
-						if v != nil {
+						if v != nil && v.Harness {
+							r.Inconclusive("harness failure: " + v.What)
+						} else if v != nil {
 							viol++
 							coll.Add(storediff.Finding{Sig: v.Sig, Cfg: it.cfg, Ops: seq[:v.At+1], What: v.What, Expected: v.Expected, Got: v.Got,
 								Source: "systematic", OrigLen: len(seq)})
@@ -260,7 +266,9 @@ func run(tier string) int {
 					if steered {
 						atomic.AddInt64(&rndSteered, 1)
 					}
-					if v != nil {
+					if v != nil && v.Harness {
+						r.Inconclusive("harness failure: " + v.What)
+					} else if v != nil {
 						atomic.AddInt64(&rndViol, 1)
 						coll.Add(storediff.Finding{Sig: v.Sig, Cfg: cfg, Ops: ops[:v.At+1], What: v.What, Expected: v.Expected, Got: v.Got,
 							Source: fmt.Sprintf("random seed=%d index=%d steered=%v", seed, i, steered), OrigLen: len(ops)})
@@ -417,22 +425,35 @@ func concurrentDiag(r *verdict.Run) {
 		r.Diag("supplementary concurrent pass: child killed after 3 minutes (diagnostic only)")
 		return
 	}
+	phases := 0
 	for _, line := range strings.Split(string(out), "\n") {
-		if strings.HasPrefix(line, "CONC-RESULT ") {
+		for _, ph := range []string{"false", "true"} {
+			pre := "CONC-RESULT versioned=" + ph + " "
+			if !strings.HasPrefix(line, pre) {
+				continue
+			}
 			var res storediff.ConcResult
-			if json.Unmarshal([]byte(strings.TrimPrefix(line, "CONC-RESULT ")), &res) == nil {
-				r.Set("supplementary_concurrent_readers", res)
-				r.Diag(fmt.Sprintf("supplementary concurrent pass (diagnostic only): porcupine=%s reads=%d versioned_reads=%d versioned_mismatch=%d reader_panics=%d %s",
-					res.Porcupine, res.Reads, res.VersionedReads, res.VersionedMismatch, res.ReaderPanics, res.FirstPanic))
-				return
+			if json.Unmarshal([]byte(strings.TrimPrefix(line, pre)), &res) == nil {
+				phases++
+				r.Set("supplementary_concurrent_readers_versioned_"+ph, res)
+				r.Diag(fmt.Sprintf("supplementary concurrent pass (diagnostic only, versioned reads=%s): porcupine=%s reads=%d versioned_reads=%d versioned_mismatch=%d reader_panics=%d %s",
+					ph, res.Porcupine, res.Reads, res.VersionedReads, res.VersionedMismatch, res.ReaderPanics, res.FirstPanic))
 			}
 		}
 	}
-	tail := string(out)
-	if len(tail) > 600 {
-		tail = tail[:600]
+	if phases < 2 {
+		// keep the fatal error line and the first frames
+		var keep []string
+		for _, line := range strings.Split(string(out), "\n") {
+			if strings.HasPrefix(line, "fatal error:") || strings.HasPrefix(line, "panic:") || len(keep) > 0 {
+				keep = append(keep, strings.TrimSpace(line))
+			}
+			if len(keep) >= 8 {
+				break
+			}
+		}
+		r.Diag(fmt.Sprintf("supplementary concurrent pass (diagnostic only): child died in phase %d (%v): %s", phases+1, err, strings.Join(keep, " | ")))
 	}
-	r.Diag(fmt.Sprintf("supplementary concurrent pass (diagnostic only): child failed: %v: %s", err, tail))
 }
 
 func replay(path string) int {
